@@ -111,6 +111,29 @@ def items(tier: str, seed: int) -> list[dict]:
                                 cfgs += [{"allow_x00": False, "codec": "utf-8"}, {"allow_x00": True, "codec": "ascii"}]
                         out.append({"spec": spec, "loc": location, "required": required, "schema": schema, "ref": ref_depth,
                                     "cfgs": cfgs, "d": dev, "family": fam, "security": False})
+    # parameters declared on the path item next to the operation's own one: everything that is not overridden by the same
+    # (name, location) is an input of the operation (names differing in letter case are different parameters)
+    integer = {"type": "integer", "minimum": 1}
+    for spec in ("3.0", "2.0", "3.1"):
+        for loc in ("query", "cookie", "header"):
+            if spec == "2.0" and loc == "cookie":
+                continue
+            own_name = "X-P" if loc == "header" else "p"
+            variants = [
+                ("case_variant", [{"name": own_name.upper() if loc != "header" else "X-Q", "in": loc, "required": True, "schema": integer}]),
+                ("unrelated", [{"name": "s", "in": loc, "required": True, "schema": integer}]),
+                ("same_name_elsewhere", [{"name": own_name, "in": "query" if loc != "query" else "header", "required": True, "schema": integer}]),
+                ("overridden", [{"name": own_name, "in": loc, "required": True, "schema": integer}]),
+                ("two", [{"name": "s", "in": loc, "required": True, "schema": integer},
+                         {"name": "S", "in": loc, "required": True, "schema": {"type": "boolean"}}]),
+            ]
+            for how, shared in variants:
+                if loc == "header" and how == "two":
+                    continue  # header names are case-insensitive: `s` and `S` would be one header
+                for required in (True, False):
+                    out.append({"spec": spec, "loc": loc, "required": required, "schema": {"type": "string", "enum": ["x", "y"]}, "ref": 0,
+                                "cfgs": [{"allow_x00": True, "codec": "utf-8"}], "d": BOUNDS[tier]["d"], "family": "shared",
+                                "security": False, "shared": shared, "shared_how": how})
     # security parameters on/off (apiKey in header and query)
     for spec in ("3.0", "2.0"):
         for sec_on in (True, False):
@@ -152,6 +175,15 @@ def build(item: dict) -> tuple[dict, dict]:
         security = {"K1": {"type": "apiKey", "in": "header", "name": "X-Key"}, "K2": {"type": "apiKey", "in": "query", "name": "key"}}
     doc = ss.make_document(spec, path=path, method="post" if loc == "body" else "get", parameters=params, body=body,
                            components=copy.deepcopy(components), security=security)
+    effective = list(params)
+    if item.get("shared"):
+        shared = copy.deepcopy(item["shared"])
+        own_keys = {(p["name"], p["in"]) for p in params}
+        effective += [p for p in shared if (p["name"], p["in"]) not in own_keys]
+        if spec == "2.0":
+            shared = [{**{k: v for k, v in p.items() if k != "schema"}, **p["schema"]} for p in shared]
+        doc["paths"][path]["parameters"] = shared
+    params = effective
     expect = {"params": params, "body": body, "path": path, "method": "post" if loc == "body" else "get",
               "security": security, "schema": used}
     return doc, expect
